@@ -20,6 +20,10 @@ ASSUMPTIONS = [
     "reuses the models and theorems of C07 (Base58Check), C06 (segwit addresses), C13 (script builders, opcode table), "
     "C14 (SEC1 decoding) without change",
     "modelled, not verified: src/bits/script/utils.py (scriptpubkey), src/bits/utils.py (to_bitcoin_address)",
+    "entry points compared with the SAME model ops (no model of their own): `bits addr` (harness/cli.py, in-process main()) "
+    "must print to_bitcoin_address(payload, type, network, witness version) and print nothing when it refuses; the output "
+    "scripts bits.tx.send_tx / `bits send` write for the recipient and the change address (rpc stubbed, unsigned) must be "
+    "scriptpubkey(address), and an input scriptpubkey refuses must be refused there too (never used as a raw script)",
 ]
 FILLER = {"rand-bytes"}
 CASE_TIMEOUT = 30.0
@@ -279,11 +283,172 @@ def _i_addr_script(cv, payload, ty, net, wv):
         return (addr, su.scriptpubkey(addr))
 
 
+# ---- the command line (`bits addr`) and the second entry point of scriptpubkey (send_tx / `bits send`)
+_MARK = b"\xff\xffc08-mark:"     # no script starts like this (templates start with 76 a9 00 51..60 21 41)
+
+
+class CliRefused(ValueError):
+    """the CLI refused (ERROR return value, argparse exit, escaped exception) and wrote nothing to stdout"""
+
+
+def _cli_result(r, what):
+    refused = r["rc"] is not None or r["exc"] is not None
+    if refused:
+        if r["out"]:
+            # a refusal must not emit anything: returned as a VALUE so that it disagrees with the model's Err
+            return _MARK + b"stdout-on-refusal:" + r["out"]
+        raise CliRefused("%s refused: rc=%r exc=%r" % (what, r["rc"], r["exc"]))
+    return r["out"]
+
+
+def _i_cli_addr(payload, ty, net, wv, mode):
+    """`bits addr`: payload on stdin in the format of [mode], options as given; the printed address"""
+    import cli
+    argv = ["addr"]
+    if ty is not None:
+        argv += ["-T" if mode != "long" else "--type", ty]
+    if wv is not None:
+        argv += ["--wv" if mode != "long" else "--witness-version", str(wv)]
+    cfg = None
+    if mode == "cfg":
+        cfg = {"network": net}
+    elif net is not None:
+        argv += ["-N" if mode != "long" else "--network", net]
+    if mode in ("raw", "print"):
+        argv += ["-1"]
+        stdin = payload
+    elif mode == "rawword":
+        argv += ["-1", "raw"]
+        stdin = payload
+    elif mode == "bin":
+        argv += ["-1", "bin"]
+        stdin = ("".join("{:08b}".format(x) for x in payload)).encode()
+    elif mode == "HEX":
+        stdin = payload.hex().upper().encode() + b"\n"
+    else:
+        stdin = payload.hex().encode()
+    if mode == "print":
+        argv += ["-P"]
+    r = cli.run_main(argv, stdin=stdin, config_json=cfg)
+    out = _cli_result(r, "bits addr")
+    if mode == "print" and not out.startswith(_MARK):
+        if not out.endswith(b"\n"):
+            return _MARK + b"no-newline-with--P:" + out
+        out = out[:-1]
+    return out
+
+
+_SEND_HASH = hashlib.new("sha1", b"c08 sender").digest()
+_SEND_SENDER = ref_b58check(b"\x6f" + _SEND_HASH)           # regtest p2pkh (reference encoder)
+_SEND_SENDER_SPK = tpl_p2pkh(_SEND_HASH)
+_SEND_OTHER = ref_segwit_encode("bcrt", 0, hashlib.sha256(b"c08 other").digest())
+_SEND_OTHER_SPK = tpl_witness(0, hashlib.sha256(b"c08 other").digest())
+
+
+def _fake_rpc(method, *params, **kwargs):
+    assert method == "scantxoutset", method
+    return {"total_amount": 1.0,
+            "unspents": [{"txid": "11" * 32, "vout": 0, "amount": 1.0, "scriptPubKey": _SEND_SENDER_SPK.hex()}]}
+
+
+def _tx_output_scripts(raw):
+    """output scripts of a serialized transaction (own reader: legacy or BIP144 layout)"""
+    def varint(i):
+        b = raw[i]
+        if b < 0xFD:
+            return b, i + 1
+        n = {0xFD: 2, 0xFE: 4, 0xFF: 8}[b]
+        return int.from_bytes(raw[i + 1:i + 1 + n], "little"), i + 1 + n
+    i = 4
+    if raw[4:6] == b"\x00\x01":
+        i = 6
+    nin, i = varint(i)
+    for _ in range(nin):
+        i += 36
+        n, i = varint(i)
+        i += n + 4
+    nout, i = varint(i)
+    outs = []
+    for _ in range(nout):
+        i += 8
+        n, i = varint(i)
+        outs.append(bytes(raw[i:i + n]))
+        i += n
+    return outs
+
+
+def _send_outputs(recipient, change):
+    """bits.tx.send_tx (unsigned, rpc stubbed): half of one 1 BTC output to [recipient], the rest to [change]"""
+    import bits.rpc
+    import bits.tx
+    orig = bits.rpc.rpc_method
+    bits.rpc.rpc_method = _fake_rpc
+    try:
+        raw = bits.tx.send_tx(_SEND_SENDER, recipient, change_addr=change, send_fraction=0.5)
+    finally:
+        bits.rpc.rpc_method = orig
+    outs = _tx_output_scripts(raw)
+    if len(outs) != 2:
+        raise RuntimeError("expected a recipient and a change output, got %d outputs" % len(outs))
+    return outs
+
+
+def _i_send_recipient(recipient):
+    outs = _send_outputs(recipient, None)
+    if outs[1] != _SEND_SENDER_SPK:
+        return _MARK + b"change-output:" + outs[1]
+    return outs[0]
+
+
+def _i_send_change(change):
+    outs = _send_outputs(_SEND_OTHER, change)
+    if outs[0] != _SEND_OTHER_SPK:
+        return _MARK + b"recipient-output:" + outs[0]
+    return outs[1]
+
+
+def _cli_send(recipient, change):
+    import cli
+    import os
+    argv = ["send", os.fsdecode(_SEND_SENDER), os.fsdecode(recipient), "--send-fraction", "0.5"]
+    if change is not None:
+        argv += ["--change-addr", os.fsdecode(change)]
+    r = cli.run_main(argv, stubs={"bits.rpc.rpc_method": _fake_rpc})
+    # main() RETURNS nothing for send: the transaction is written to stdout as hex
+    out = _cli_result(r, "bits send")
+    if out.startswith(_MARK):
+        return [out, out]
+    outs = _tx_output_scripts(bytes.fromhex(out.decode("ascii").strip()))
+    if len(outs) != 2:
+        raise RuntimeError("expected a recipient and a change output, got %d outputs" % len(outs))
+    return outs
+
+
+def _i_cli_send_recipient(recipient):
+    outs = _cli_send(recipient, None)
+    if not outs[0].startswith(_MARK) and outs[1] != _SEND_SENDER_SPK:
+        return _MARK + b"change-output:" + outs[1]
+    return outs[0]
+
+
+def _i_cli_send_change(change):
+    outs = _cli_send(_SEND_OTHER, change)
+    if not outs[0].startswith(_MARK) and outs[0] != _SEND_OTHER_SPK:
+        return _MARK + b"recipient-output:" + outs[0]
+    return outs[1]
+
+
 IMPL = {
     "scriptpubkey": _i_scriptpubkey,
     "to_bitcoin_address": _i_to_bitcoin_address,
     "addr_script": _i_addr_script,
+    "cli_addr": _i_cli_addr,
+    "send_recipient": _i_send_recipient,
+    "send_change": _i_send_change,
+    "cli_send_recipient": _i_cli_send_recipient,
+    "cli_send_change": _i_cli_send_change,
 }
+SEND_OPS = ("send_recipient", "send_change", "cli_send_recipient", "cli_send_change")
 
 
 def model_call(c):
@@ -294,6 +459,16 @@ def model_call(c):
     if op == "addr_script":
         cv = curve(a[0])
         return "c08_addr_script", [cv["p"], cv["a"], cv["b"]] + a[1:]
+    if op == "cli_addr":
+        # the printed address must be to_bitcoin_address(payload, addr_type, network, witness_version); the parser's
+        # defaults (-T p2pkh, -N mainnet) are the library's
+        payload, ty, net, wv, _mode = a
+        return "c08_to_bitcoin_address", [payload, "p2pkh" if ty is None else ty, "mainnet" if net is None else net, wv]
+    if op in SEND_OPS:
+        # the output script send_tx / `bits send` writes for a recipient / change address is scriptpubkey(address),
+        # and what scriptpubkey refuses must be refused through this path as well
+        cv = curve(0)
+        return "c08_scriptpubkey", [cv["p"], cv["a"], cv["b"], a[0]]
     return "c08_" + op, a
 
 
@@ -340,6 +515,59 @@ def prop_oracle(c):
         if op == "to_bitcoin_address":
             return None
         return prop_oracle({"op": "scriptpubkey", "args": [cv, addr]})
+    if op == "cli_addr":
+        payload, ty, net, wv, mode = a
+        ty_, net_ = ("p2pkh" if ty is None else ty), ("mainnet" if net is None else net)
+        legal = net_ in NETS and ((wv is None and ty_ in ("p2pkh", "p2sh") and len(payload) == 20)
+                                  or (wv is not None and 0 <= wv <= 16 and 2 <= len(payload) <= 40
+                                      and (wv != 0 or len(payload) in (20, 32)) and ty_ in ("p2pkh", "p2sh")))
+        try:
+            lib = _i_to_bitcoin_address(payload, ty_, net_, wv)
+        except Exception as e:
+            lib = e
+        try:
+            got = _i_cli_addr(payload, ty, net, wv, mode)
+        except Exception as e:
+            got = e
+        if legal:
+            ref_addr = ref_b58check(bytes([VERSION[(ty_, net_)]]) + payload) if wv is None else \
+                ref_segwit_encode(HRP[net_], wv, payload)
+            if isinstance(got, Exception):
+                return "`bits addr` refused a legal request (%s); the address is %r" % (got, ref_addr)
+            if got != ref_addr:
+                return "`bits addr` printed %r, the reference encoding is %r" % (got, ref_addr)
+            return None
+        if isinstance(lib, Exception):
+            if not isinstance(got, Exception):
+                return "`bits addr` printed %r for a request the library refuses (%s)" % (got, type(lib).__name__)
+            return None
+        if isinstance(got, Exception):
+            # the parser may refuse more than the library (unknown type / network names, versions > 16)
+            return None
+        if got != lib:
+            return "`bits addr` printed %r, to_bitcoin_address returns %r" % (got, lib)
+        return None
+    if op in SEND_OPS:
+        data = a[0]
+        want = ref_scriptpubkey(0, data)
+        try:
+            got = IMPL[op](data)
+        except Exception as e:
+            got = e
+        via = "`bits send`" if op.startswith("cli_") else "send_tx"
+        role = "recipient" if op.endswith("recipient") else "change address"
+        if want[0] == "script":
+            if isinstance(got, Exception):
+                # the command line cannot carry every byte string (leading '-', NUL): only the library path must accept
+                if op.startswith("cli_") and (data[:1] == b"-" or b"\0" in data):
+                    return None
+                return "%s refused a valid %s (%s: %s)" % (via, role, type(got).__name__, got)
+            if got != want[1]:
+                return "%s pays the %s to the script %s, the standard template gives %s" % (via, role, got.hex(), want[1].hex())
+            return None
+        if not isinstance(got, Exception):
+            return "%s: %s (%s) was paid to the script %s instead of being refused" % (via, want[1], role, got.hex())
+        return None
     return "unknown op"
 
 
@@ -622,7 +850,94 @@ def gen_cases(rng, tier):
     for _ in range(600 if T else 60):
         spk("rand-b58-string", 0, bytes(rng.choice(B58) for _ in range(rng.randrange(0, 60))))
         spk("rand-bech32-string", 0, rng.choice([b"bc1", b"tb1", b"bcrt1"]) + bytes(rng.choice(CHARSET.encode()) for _ in range(rng.randrange(0, 60))))
+    _gen_cli(rng, T, out, pts, b58_addrs, seg_addrs)
     return out
+
+
+def _gen_cli(rng, T, out, pts, b58_addrs, seg_addrs):
+    """the command line and the second entry point: `bits addr` vs to_bitcoin_address, send_tx / `bits send` vs scriptpubkey"""
+    cli_addr = lambda cls, *a: out.append(case(cls, "cli_addr", *a))
+    modes = ["hex", "HEX", "raw", "rawword", "bin", "cfg", "print", "long"]
+    # ---- bits addr: both types x three networks, every input format / option spelling
+    k = 0
+    for net in NETS:
+        for ty in ("p2pkh", "p2sh"):
+            for h in (_payloads(rng, 20, 2 if T else 1)):
+                cli_addr("cli-addr-" + ty, h, ty, net, None, modes[k % len(modes)])
+                k += 1
+    for mode in modes:
+        cli_addr("cli-addr-formats", rng.randbytes(20), rng.choice(("p2pkh", "p2sh")), rng.choice(NETS), None, mode)
+        cli_addr("cli-addr-formats", bytes(3) + rng.randbytes(17), "p2pkh", rng.choice(NETS), None, mode)   # leading zero bytes
+    cli_addr("cli-addr-defaults", rng.randbytes(20), None, None, None, "hex")        # -T / -N omitted
+    cli_addr("cli-addr-defaults", rng.randbytes(20), None, "testnet", None, "raw")
+    cli_addr("cli-addr-defaults", rng.randbytes(32), None, None, 0, "hex")
+    # witness versions 0..16 with legal program lengths; -T is ignored
+    for v in range(17):
+        lens = [20, 32] if v == 0 else ([2, 20, 32, 40, rng.randrange(3, 40)] if T else [rng.choice((2, 20, 32, 40)), rng.randrange(3, 40)])
+        for L in lens:
+            cli_addr("cli-addr-witness", rng.randbytes(L), rng.choice((None, "p2pkh", "p2sh")), NETS[(v + L) % 3], v,
+                     modes[k % len(modes)])
+            k += 1
+    cli_addr("cli-addr-witness", bytes(32), "p2sh", "mainnet", 0, "raw")
+    cli_addr("cli-addr-witness", b"\xff" * 20, "p2pkh", "regtest", 0, "bin")
+    # what the library (or already the parser) refuses: nothing may be printed
+    h = rng.randbytes(20)
+    for (ty, net, wv) in [("p2wpkh", "mainnet", None), ("P2PKH", "mainnet", None), ("p2pkh", "signet", None), ("p2pkh", "main", None),
+                          ("p2pkh", "mainnet", 17), ("p2pkh", "mainnet", -1), ("", "testnet", None), ("p2sh", "", 1)]:
+        cli_addr("cli-addr-refused-option", h, ty, net, wv, "hex")
+    cli_addr("cli-addr-refused-option", h, "p2pkh", "bogus", None, "cfg")              # unknown network from the config file
+    for L in (83, 84, 90, 200):                                                        # longer than a Bech32 string can carry
+        cli_addr("cli-addr-refused-length", rng.randbytes(L), "p2pkh", rng.choice(NETS), rng.choice((0, 1, 16)), "raw")
+    # programs the encoder writes although no decoder accepts them (v0 / out-of-range lengths), empty payloads
+    for (L, v) in ((5, 0), (21, 0), (1, 1), (41, 1), (0, None), (19, None), (21, None), (32, None), (0, 0)):
+        cli_addr("cli-addr-nonstandard-length", rng.randbytes(L), "p2pkh", rng.choice(NETS), v, rng.choice(("hex", "raw")))
+
+    # ---- send_tx / bits send: recipient and change address go through scriptpubkey
+    def send(cls, data, both=True):
+        out.append(case(cls, "send_recipient", data, strict=True))
+        out.append(case(cls, "cli_send_recipient", data))
+        if both:
+            out.append(case(cls, "send_change", data, strict=True))
+            out.append(case(cls, "cli_send_change", data))
+    n = 6 if T else 2
+    for a_ in rng.sample(b58_addrs, min(len(b58_addrs), 2 * n)):
+        send("send-valid-b58", a_)
+    for a_ in rng.sample(seg_addrs, min(len(seg_addrs), 3 * n)):
+        send("send-valid-segwit", a_)
+    send("send-valid-segwit", rng.choice(seg_addrs).upper())
+    for (x, y) in pts[:n]:
+        # keys travel through argv only when they are valid text for the command line: the library path takes them all
+        out.append(case("send-valid-key", "send_recipient", sec1(x, y, True), strict=True))
+        out.append(case("send-valid-key", "send_change", sec1(x, y, False), strict=True))
+    # invalid recipients: mistyped / truncated addresses, unknown version bytes (a WIF key), malformed keys, raw scripts
+    bad = []
+    for a_ in rng.sample(b58_addrs, n) + rng.sample(seg_addrs, n):
+        eds = _edits(rng, a_, B58 if a_ in b58_addrs else CHARSET.encode())
+        for kind, e in rng.sample(eds, 3 if T else 2):
+            if b"\0" not in e:
+                bad.append(("send-invalid-mistyped", e))
+    bad.append(("send-invalid-version", ref_b58check(b"\x80" + rng.randbytes(32) + b"\x01")))       # a WIF key
+    bad.append(("send-invalid-version", ref_b58check(b"\x01" + rng.randbytes(20))))
+    bad.append(("send-invalid-version", ref_b58check(b"\x04\x88\xb2\x1e" + rng.randbytes(74))))     # an xpub
+    bad.append(("send-invalid-length", ref_b58check(b"\x00" + rng.randbytes(19))))
+    bad.append(("send-invalid-length", ref_b58check(b"\x05" + rng.randbytes(32))))
+    bad.append(("send-invalid-segwit", ref_segwit_encode("bc", 0, rng.randbytes(21))))
+    bad.append(("send-invalid-segwit", ref_segwit_encode("bc", 1, rng.randbytes(32), const=1)))
+    bad.append(("send-invalid-segwit", ref_segwit_encode("ltc", 0, rng.randbytes(20))))
+    for s_ in (b"hello", b"x", b"76a914" + bytes(20).hex().encode() + b"88ac", tpl_p2pkh(bytes(range(1, 21))),
+               tpl_witness(0, bytes(range(1, 21))), b"\x6a\x04test", b"1" * 34, b"bc1q"):
+        bad.append(("send-invalid-raw-script", s_))
+    for cls, e in bad:
+        send(cls, e)
+    (x, y) = pts[0]
+    X, Y = x.to_bytes(32, "big"), y.to_bytes(32, "big")
+    for e in (b"\x02" + X + Y, b"\x04" + X, b"\x05" + X, b"\x04" + X + ((y + 1) % SECP["p"]).to_bytes(32, "big"),
+              b"\x02" + _nonresidue_x(0, rng).to_bytes(32, "big"), b"\x02" + (SECP["p"] + 1).to_bytes(32, "big"),
+              bytes([6 + (y & 1)]) + X + Y):
+        out.append(case("send-invalid-key", "send_recipient", e, strict=True))
+        out.append(case("send-invalid-key", "send_change", e, strict=True))
+    out.append(case("send-invalid-empty", "send_recipient", b"", strict=True))
+    out.append(case("send-invalid-empty", "cli_send_recipient", b""))
 
 
 # ---------------------------------------------------------------- shrinking / known findings / extra search
@@ -632,7 +947,13 @@ def shrink(c):
             c2 = dict(c)
             c2["args"] = [c["args"][0], b]
             yield c2
-    elif c["op"] in ("addr_script", "to_bitcoin_address"):
+    elif c["op"] in SEND_OPS:
+        for b in shrink_bytes(c["args"][0]):
+            if c["op"].endswith("change") and not b:
+                continue              # an empty change address means "no change address" (change goes back to the sender)
+            if b"\0" not in b or not c["op"].startswith("cli_"):
+                yield dict(c, args=[b])
+    elif c["op"] in ("addr_script", "to_bitcoin_address", "cli_addr"):
         i = 1 if c["op"] == "addr_script" else 0
         for b in shrink_bytes(c["args"][i]):
             c2 = dict(c)
@@ -676,6 +997,9 @@ def _coq_opt_Z(v):
 
 def coq_equation(c, mr):
     op, a = c["op"], c["args"]
+    if op == "cli_addr" or op in SEND_OPS:
+        # same model ops as to_bitcoin_address / scriptpubkey, cross-checked through those classes
+        return None
     if op == "to_bitcoin_address":
         if len(a[0]) > 64:
             return None
